@@ -15,6 +15,7 @@ import CobaVerif.Lemmas.C15
 import CobaVerif.Lemmas.C15Hist
 import CobaVerif.Lemmas.C15P4
 import CobaVerif.Lemmas.C15P5
+import CobaVerif.Lemmas.C15P6
 
 namespace Coba.C15
 
@@ -545,5 +546,36 @@ gives for the repaired code - results and exceptions.  A reordered, dropped or e
 theorem pred_format_table (sp : PyVal) (actions : Option (List PyVal)) :
     pfRun Generated.C15.predFormatTree sp actions = predFormat Fixes.all sp actions :=
   pred_format_table' sp actions
+
+/-! ### Phase 6: the action cache and caller-owned list objects (open finding C15-F6)
+
+   theorem inplace_cache_full (cs) : runPrepRef fx ⟨st⟩ cs = runPrep fx st cs      -- FALSE for the pinned lines:
+   `_prev_actions = actions` keeps a reference, so a caller that refills its list in place and passes it again is served from the
+   cache (`inplace_stale_counterexample`).  It holds for the repaired lines (`_prev_actions` = a copy), which ARE `runPrep`. -/
+
+/-- **partial (forced hypothesis `neverKept`).**  For every history of calls in which the caller never passes the list object the
+wrapper currently keeps a reference to, the pinned lines offer the learner, call after call, exactly what the value-based
+`prepare` offers - the cache all the other theorems (`prepare_given`, `cached_actions_equal`, `history_roundtrip`) are about. -/
+theorem inplace_never_kept_partial (fx : Fixes) (a : AState) (cs : List OCall) (h : neverKept fx a cs = true) :
+    runPrepRef fx a cs = runPrep fx a.st cs :=
+  prepRef_never_kept' fx cs a h
+
+/-- **partial, in the caller's terms.**  A caller that builds a fresh list object for every interaction (as coba's environments
+do) is inside the hypothesis, whatever the contents are. -/
+theorem inplace_fresh_objects_partial (fx : Fixes) (st : State) (cs : List OCall) (h : freshObjects [] cs = true) :
+    runPrepRef fx { st := st } cs = runPrep fx st cs :=
+  prepRef_fresh_objects' fx st cs h
+
+example : freshObjects [] [⟨1, .single (.int 7) [.int 0, .int 1]⟩, ⟨2, .single (.int 8) [.int 3]⟩, ⟨3, .single (.int 9) [.int 0, .int 1]⟩] = true := by
+  decide
+
+/-- the hypothesis is needed: list object 1 holds [0,1,2], is refilled in place with [3,4] and passed again - the pinned lines
+offer the float copies made for [0,1,2] both times (nothing `==` [3,4] is offered), the value-based cache offers [3,4]. -/
+theorem inplace_stale_counterexample :
+    (offeredLists (runPrepRef Fixes.all { st := initState 1 } inplaceCalls)).map (fun l => pyEqList l [.int 3, .int 4]) = [false, false]
+    ∧ (offeredLists (runPrepRef Fixes.all { st := initState 1 } inplaceCalls)).map (fun l => pyEqList l [.int 0, .int 1, .int 2]) = [true, true]
+    ∧ (offeredLists (runPrep Fixes.all (initState 1) inplaceCalls)).map (fun l => pyEqList l [.int 3, .int 4]) = [false, true]
+    ∧ neverKept Fixes.all { st := initState 1 } inplaceCalls = false :=
+  inplace_stale_counterexample'
 
 end Coba.C15
